@@ -24,7 +24,7 @@ func Small(t *rapid.T, label string) *big.Int {
 
 // SignedSmall draws a small offset in [-2^16, 2^16].
 func SignedSmall(t *rapid.T, label string) *big.Int {
-	return bi(int64(rapid.IntRange(-(1 << 16), 1<<16).Draw(t, label)))
+	return bi(int64(rapid.IntRange(-(1<<16), 1<<16).Draw(t, label)))
 }
 
 var limbChoices = []uint64{0, 1, 1 << 63, ^uint64(0), 1 << 32, 1<<32 - 1, ^uint64(0) - 1, 0x8000000000000001}
@@ -182,4 +182,80 @@ func Ctrl(t *rapid.T, label string) uint64 {
 // Bytes draws a byte string with length in [lo,hi].
 func Bytes(t *rapid.T, lo, hi int, label string) []byte {
 	return rapid.SliceOfN(rapid.Byte(), lo, hi).Draw(t, label)
+}
+
+// LimbEdge draws a value next to a multiple of 2^64: k*2^64 + e or
+// k*2^64 - e (k in 0..4, reduced mod m) with e from the offsets at which a
+// carry out of / borrow into the low limb or a fold by 2^256 mod p = 2^32+977
+// changes behaviour.
+func LimbEdge(t *rapid.T, m *big.Int, label string) *big.Int {
+	k := rapid.IntRange(0, 4).Draw(t, label+"_limb")
+	e := rapid.SampledFrom([]int64{0, 1, 2, 976, 977, 978, 1<<32 - 1, 1 << 32, 1<<32 + 976, 1<<32 + 977, 1<<32 + 978, 2 * (1<<32 + 977), -1}).Draw(t, label+"_edge")
+	ev := big.NewInt(e)
+	if e < 0 {
+		ev = Small(t, label+"_edgesmall")
+	}
+	v := new(big.Int).Lsh(big.NewInt(int64(k)), 64)
+	if rapid.Bool().Draw(t, label+"_below") {
+		v.Sub(v, ev)
+	} else {
+		v.Add(v, ev)
+	}
+	return v.Mod(v, m)
+}
+
+// WideAlias draws an n-byte big-endian string (n >= 32) whose value is
+// r + j*m: r is a boundary-biased or limb-edge residue and j is drawn from
+// {0, 1, max, max-1, max-small, 2^k-aligned, uniform} with max the largest j
+// that still fits n bytes.  The largest aliases exercise every carry of a
+// wide reduction; the residue decides which final correction fires.
+func WideAlias(t *rapid.T, m *big.Int, n int, label string) (src []byte, r, j *big.Int) {
+	if rapid.IntRange(0, 2).Draw(t, label+"_rkind") == 0 {
+		r = LimbEdge(t, m, label+"_r")
+	} else {
+		r = Int256(t, m, label+"_r")
+	}
+	maxv := new(big.Int).Lsh(big.NewInt(1), uint(8*n))
+	jmax := new(big.Int).Div(new(big.Int).Sub(new(big.Int).Sub(maxv, big.NewInt(1)), r), m)
+	j = new(big.Int)
+	if jmax.Sign() > 0 {
+		switch rapid.SampledFrom([]string{"max", "max", "max-1", "max-small", "1", "0", "uniform", "top-bit"}).Draw(t, label+"_j") {
+		case "max":
+			j.Set(jmax)
+		case "max-1":
+			j.Sub(jmax, big.NewInt(1))
+		case "max-small":
+			j.Sub(jmax, Small(t, label+"_jsmall"))
+		case "1":
+			j.SetInt64(1)
+		case "uniform":
+			j.Mod(new(big.Int).Lsh(Uniform256(t, label+"_ju"), 256), new(big.Int).Add(jmax, big.NewInt(1)))
+			j.Add(j, new(big.Int).Mod(Uniform256(t, label+"_ju2"), new(big.Int).Add(jmax, big.NewInt(1))))
+			j.Mod(j, new(big.Int).Add(jmax, big.NewInt(1)))
+		case "top-bit":
+			j.SetBit(j, jmax.BitLen()-1, 1)
+		}
+		if j.Sign() < 0 {
+			j.SetInt64(0)
+		}
+	}
+	v := new(big.Int).Add(r, new(big.Int).Mul(j, m))
+	if v.Cmp(maxv) >= 0 { // cannot happen by construction
+		v.Set(r)
+		j.SetInt64(0)
+	}
+	return v.FillBytes(make([]byte, n)), r, j
+}
+
+// WideLen draws a SetWideBytes / SetUniformBytes input length in 32..64,
+// weighted towards the full 64 bytes (where every limb of the high half is in
+// play) and the 48 bytes hash-to-curve uses.
+func WideLen(t *rapid.T, label string) int {
+	switch rapid.IntRange(0, 5).Draw(t, label+"_sel") {
+	case 0, 1:
+		return 64
+	case 2:
+		return 48
+	}
+	return rapid.IntRange(32, 64).Draw(t, label)
 }
